@@ -363,6 +363,8 @@ func (ck *checker) checkValid(in *validInput) []byte {
 	res.Count("clause.migrates.checked", 1)
 	res.Count("clause.migrates."+V, 1)
 	res.Count("clause.loads.checked", 1)
+	// 2a. what loads never has two things (node, action, exit) with one UUID
+	ck.checkUniqueUUIDs(in.Label, "", "", in.Data, flow)
 	if !bytes.Equal(out, in.Data) {
 		res.Count("migration_changed_bytes", 1)
 	}
